@@ -178,6 +178,9 @@ def plan(rng, quick):
     for runs in ("rle", "bp", "mix"):
         out.append(("rle_bool", TYPES[0], {"bool_runs": runs, "v2": False}))
         out.append(("rle_bool", TYPES[0], {"bool_runs": runs, "v2": True}))
+    for t in [x for x in TYPES if x[0] in ("double", "int64", "utf8", "int32")]:
+        for v2 in (False, True):                              # a page of nulls only BETWEEN pages with values
+            out.append(("plain", t, {"v2": v2, "null_page_mid": True}))
     nrand = 40 if quick else 1500
     for _ in range(nrand):
         fam = rng.choice(["dict", "dict", "delta", "plain", "plain", "rle_bool"])
@@ -226,9 +229,11 @@ def gen_file(rng, idx, fam, t, forced):
             if seq and rng.random() < 0.7:
                 seq[rng.randrange(len(seq))] = min(hi, lim) - 1
         pool = seq
+    if forced.get("null_page_mid"):
+        n, optional, pat = 12, True, "mid-page"
     cells = []
     for r in range(n):
-        isnull = optional and (pat == "all" or (pat == "some" and rng.random() < 0.3) or (pat == "alt" and r % 2 == 0)
+        isnull = optional and ((pat == "mid-page" and 4 <= r < 8) or pat == "all" or (pat == "some" and rng.random() < 0.3) or (pat == "alt" and r % 2 == 0)
                                or (pat == "first" and r == 0) or (pat == "last" and r == n - 1))
         if isnull:
             cells.append(None)
@@ -260,13 +265,17 @@ def gen_file(rng, idx, fam, t, forced):
         ch["encoding"] = 5
         ch["delta_shape"] = rng.choice([(128, 4), (8, 1), (256, 2), (64, 8)])
         ch["delta_extra"] = rng.choice([0, 0, 1, 3])
-    ch.update({k_: v_ for k_, v_ in forced.items() if k_ != "dict_fill"})
+    ch.update({k_: v_ for k_, v_ in forced.items() if k_ not in ("dict_fill", "null_page_mid")})
     if ch["v2"]:
         ch["v2_compressed"] = rng.random() < 0.7
         ch["v2_omit_flag"] = rng.random() < 0.3
     k = rng.choice([1, 1, 2, 3])
     cuts = sorted(set([0, n] + [rng.randrange(0, n + 1) for _ in range(k - 1)]))
     rgs = [(a, b) for a, b in zip(cuts, cuts[1:]) if b > a]
+    if forced.get("null_page_mid"):
+        rgs = [(0, n)]
+        ch["page_bounds"] = [4, 8]
+        ch["codec"] = "UNCOMPRESSED"
     if forced.get("dict_fill") == "most":
         rgs = [(0, n)]                      # one dictionary holding all k entries
         ch.pop("fallback_after", None)
